@@ -362,6 +362,11 @@ def insertCallOut (l : List CallOut) (c : CallOut) : List CallOut :=
   | [] => [c]
   | x :: xs => if x.due ≥ c.due then c :: x :: xs else x :: insertCallOut xs c
 
+/-- an apply() on a plain object clears O_RESET_STATE -/
+def touch (w : W) : Oid → W
+  | .obj k => { w with resetState := fun x => if x = k then false else w.resetState x }
+  | _ => w
+
 /-- run a script in object `self`; stops at the first uncaught error or when `self` destructs itself -/
 def runOps (rh : HookFn) (self : Oid) : List Op → W → R
   | [], w => (w, false)
@@ -372,10 +377,8 @@ def runOps (rh : HookFn) (self : Oid) : List Op → W → R
       let w := emit w (.xErr self.name)
       (errorHandler w s!"boom {self.name}", true)
     | .cerr =>
-      let w := emit w (.xCerr self)
-      let w := { w with ctxDepth := w.ctxDepth + 1 }
-      let w := caughtError w s!"cboom {self.name}"
-      runOps rh self rest { w with ctxDepth := w.ctxDepth - 1 }
+      -- catch(): own error context around the failing expression
+      runOps rh self rest (popCtx (caughtError (pushCtx (emit w (.xCerr self))) s!"cboom {self.name}"))
     | .dest t =>
       let w := emit w (.xDest self t)
       let w := if objExists w t then destructObject rh w t else w     -- LPC: `if (o) destruct (o)`
@@ -391,10 +394,7 @@ def runOps (rh : HookFn) (self : Oid) : List Op → W → R
       runOps rh self rest (setHeartBeat w self n)
     | .w s =>
       -- tell_object(): add_message for a user; for a plain object the catch_tell apply touches it (O_RESET_STATE off)
-      let w := match self with
-        | .obj k => { w with resetState := fun x => if x = k then false else w.resetState x }
-        | _ => w
-      runOps rh self rest (addOut w self (s ++ "|"))
+      runOps rh self rest (addOut (touch w self) self (s ++ "|"))
     | .meh m => runOps rh self rest { w with meh := m }
 
 def kindEv (o : Oid) : Kind → Ev
@@ -647,12 +647,7 @@ def sweepCallOuts (rh : HookFn) : Nat → W → W
       if c.due ≤ w.now then
         let w := { w with callouts := rest }
         if w.dead c.owner then sweepCallOuts rh n w else
-        let w := emit w (.tCo c.owner c.tag)
-        let w := match c.owner with
-          | .obj k => { w with resetState := fun x => if x = k then false else w.resetState x }   -- apply() touches it
-          | _ => w
-        let (w, _) := rh w c.owner (.co c.tag)
-        sweepCallOuts rh n w
+        sweepCallOuts rh n (rh (touch (emit w (.tCo c.owner c.tag)) c.owner) c.owner (.co c.tag)).1
       else w
 
 /-- call_heart_beat() -/
@@ -668,13 +663,10 @@ def callHeartBeat (rh : HookFn) (w : W) : R :=
   -- look_for_objects_to_swap
   let w :=
     if w.now < w.nextSweep then w else
-    let w := { w with nextSweep := w.now + sweepPeriod, ctxDepth := w.ctxDepth + 1 }
-    let w := sweepResets rh w.objList w
-    { w with ctxDepth := w.ctxDepth - 1 }
+    let w := { w with nextSweep := w.now + sweepPeriod }
+    popCtx (sweepResets rh w.objList (pushCtx w))
   -- call_out
-  let w := { w with ctxDepth := w.ctxDepth + 1 }
-  let w := sweepCallOuts rh (w.callouts.length) w
-  ({ w with ctxDepth := w.ctxDepth - 1 }, false)
+  (popCtx (sweepCallOuts rh (w.callouts.length) (pushCtx w)), false)
 
 /-! ## backend() -/
 
